@@ -65,3 +65,9 @@ package proto
 //@ reads fields(GetResponse), fields(string)
 //@ ensures x != nil && x.SecondaryIndexKey != nil ==> result == *x.SecondaryIndexKey
 //@ ensures x == nil || x.SecondaryIndexKey == nil ==> result == ""
+
+//@ func BecomeLeaderRequest.GetReplicationFactor
+//@ property C05
+//@ pure
+//@ reads fields(BecomeLeaderRequest)
+//@ ensures x != nil ==> result == x.ReplicationFactor
